@@ -17,7 +17,7 @@ CFG = dict(
          "violation; the many-block output is also compared with the Lean model. Non-trivial = at least one record was emitted; distinct by input line.",
     nontrivial=["records"],
     jobs=seeds(1, 3),
-    lean_files=["Trig", "Pipe", "PipeJudge", "C08", "C09", "Edge", "Emt", "EmtShift", "EmtScan", "EmtLoop", "EmtSim", "EmtRun", "EmtStep", "EmtSafe", "EdgeGlobal", "Auto", "EmtRecs", "PipeProj", "Pipe3", "ComposeBlockIndep"],
+    lean_files=["Trig", "Pipe", "PipeJudge", "C08", "C09", "Edge", "Emt", "EmtShift", "EmtScan", "EmtLoop", "EmtSim", "EmtRun", "EmtStep", "EmtSafe", "EdgeGlobal", "Auto", "EmtRecs", "PipeProj", "Pipe3", "ComposeBlockIndep", "C08Oracle"],
     trusted_base=_PIPE_TB,
     assumptions=["the kink-fit oracle moves a trigger by at least -1 sample (the real fit: -1, 0 or +1)",
                  "C08_no_oob additionally assumes shift <= +1"],
@@ -30,7 +30,8 @@ MANIFEST = dict(
          "the retained buffer, prefix stability, split of a scan at an intermediate limit, the flush emits the same record the next edge would). Also proved: fixed-length modes give "
          "full-length records, at most one record per edge, variable-length records never overlap nor pass the next edge, the search of a block never reads outside the buffer. "
          "Never indexes outside is PROVED across blocks too (C08_no_oob: for any stream, any block lengths incl. empty or shorter than a record, invariant EmtSafe - the pending edge is recorded, absent, or recent enough that its whole record is retained). The block independence is carried from the specifications to the RECORDS of the real step (append -> TriggerData -> trim, any block time stamps): C08_records_block_independent - same frames, pre-trigger lengths and samples whatever the partition (Lemmas/EmtRecs: records = cuts of the specifications = excerpts of the delivered stream). The REAL pipeline is run cut into blocks and as a single block on every case and the record sequences must be identical; a crash is "
-         "a violation; the output is also compared with the Lean model.",
+         "a violation; the output is also compared with the Lean model. The executable oracle itself is proved sound and complete (Lemmas/C08Oracle: an accepted case has pairwise "
+         "increasing frames, consecutive records apart, and element-wise equal many-block / one-block record sequences).",
     note="Trusted: Lean 4.33 kernel (axioms propext, Classical.choice, Quot.sound only; audited every run); the hand-written model is tied to the Go code only by "
          "differential testing with seeded generators (not a proof). The least-squares kink fit is an oracle table obtained from the real zeroThreshold; the "
          "theorems quantify over all oracles with shift >= -1 (block independence) / in {-1,0,+1} (bounds). Two crash defects found through this pipeline were repaired in /repo (5067219, fbc46c8).",
@@ -58,4 +59,9 @@ THEOREMS = [
     ("DastardV.Lemmas.ComposeBlockIndep", "DastardV.Compose.records_partition_independent"),
     ("DastardV.Lemmas.ComposeBlockIndep", "DastardV.Compose.runFull_len_le"),
     ("DastardV.Lemmas.ComposeBlockIndep", "DastardV.Compose.runFull_times"),
+    ("DastardV.Lemmas.C08Oracle", "DastardV.C08.C08_oracle_sound"),
+    ("DastardV.Lemmas.C08Oracle", "DastardV.C08.firstMismatch_none_iff"),
+    ("DastardV.Lemmas.C08Oracle", "DastardV.C08.firstMismatch_none_get"),
+    ("DastardV.Lemmas.C08Oracle", "DastardV.C08.increasing_none_iff"),
+    ("DastardV.Lemmas.C08Oracle", "DastardV.C08.noOverlap_none_iff"),
 ]
